@@ -8,6 +8,7 @@ import Percival.Model.HashStep
     pbkdf2 <P> <S> <c> <dkLen> | pbkdf2sum <P> <S> <c> <dkLen>
     crc <align> <hex> | crcinit | crcupd <align> <hex> | crcfin
     big <alg> <n> <cut> <align>
+    bigd a <n> <seed>
 
 Thin by construction: `parse` (text → `Model.HashStep.Op`), `Model.HashStep.stepOp`, `render`
 (`Model.HashStep.Out` → text).  What is computed — the `Spec` value (L1) of the bytes recorded, the model's
@@ -43,6 +44,7 @@ def parse : List String → Option Op
   | ["big", alg, n, cut, _al] =>
     -- the alignment of the buffer does not exist in the model
     if ["sha256", "sha1", "md5", "crc"].contains alg then do pure (.big (← n.toNat?) (← cut.toNat?)) else none
+  | ["bigd", alg, n, seed] => do pure (.bigd (← parseAlg alg) (← n.toNat?) (← seed.toNat?))
   | ["crc", _, x] => do pure (.crc (← bytesOfHex x))
   | ["crcinit"] => some .crcinit
   | ["crcupd", _, x] => do pure (.crcupd (← bytesOfHex x))
@@ -86,6 +88,7 @@ def render : Out → String
   | .digest l1 l2 => digestLine l1 l2
   | .sum spec => s!"{summary spec} | same"
   | .same n => s!"same {n}"
+  | .streamed d => s!"sum {hexOfBytes d}"
   | .crc l1 s l2 => s!"{hexOfBytes l1} | s={hexOfNat32 s.toNat} d={hexOfBytes l2}"
   | .crcState s => s!"ok | s={hexOfNat32 s.toNat}"
 
